@@ -12,7 +12,7 @@
 (* A token is a triple <<k, v, nl>>: k is the token kind, one of           *)
 (*   "Num" "Str" "Id" "Kw" "typeof" "Unknown" or the operator /            *)
 (*   punctuation lexeme itself ("(", "===", "!.", ...);                    *)
-(* v is the lexeme (for "Str": the decoded value, for "Num": the decimal   *)
+(* v is the lexeme (for "Str": the decoded bytes, for "Num": the decimal   *)
 (* number <<neg, digits, exp>> it denotes); nl is TRUE when a line break   *)
 (* precedes the token.                                                     *)
 (*                                                                         *)
@@ -42,8 +42,8 @@ PrefixOps == {"+", "-", "!", "!!", "~"}
 LitKinds  == {"Num", "Str", "Kw"}
 NameKinds == {"Id", "Kw", "typeof"}    \* what may follow "." / "!."
 
-Fail == [ok |-> FALSE]
-Ok(t, i) == [ok |-> TRUE, t |-> t, i |-> i]
+PFail == [ok |-> FALSE]
+POk(t, i) == [ok |-> TRUE, t |-> t, i |-> i]
 
 TK(s, i)  == IF i <= Len(s) THEN s[i][1] ELSE "EOF"
 TV(s, i)  == IF i <= Len(s) THEN s[i][2] ELSE ""
@@ -54,48 +54,48 @@ RECURSIVE PExpr(_,_), PAssign(_,_), PBinary(_,_,_), PBinRest(_,_,_,_), PUnary(_,
 
 PPrimary(s, i) ==
   LET k == TK(s, i) IN
-  CASE k \in LitKinds -> Ok(<<"Lit", k, TV(s, i)>>, i + 1)
-    [] k = "Id" -> Ok(<<"Id", TV(s, i)>>, i + 1)
+  CASE k \in LitKinds -> POk(<<"Lit", k, TV(s, i)>>, i + 1)
+    [] k = "Id" -> POk(<<"Id", TV(s, i)>>, i + 1)
     [] k = "(" -> LET e == PExpr(s, i + 1) IN
-                  IF e.ok /\ TK(s, e.i) = ")" THEN Ok(<<"Paren", e.t>>, e.i + 1) ELSE Fail
-    [] k = "[" -> IF TK(s, i + 1) = "]" THEN Ok(<<"Arr", <<>>>>, i + 2)
+                  IF e.ok /\ TK(s, e.i) = ")" THEN POk(<<"Paren", e.t>>, e.i + 1) ELSE PFail
+    [] k = "[" -> IF TK(s, i + 1) = "]" THEN POk(<<"Arr", <<>>>>, i + 2)
                   ELSE LET l == PList(s, i + 1, <<>>, "]") IN
-                       IF l.ok THEN Ok(<<"Arr", l.t>>, l.i + 1) ELSE Fail
-    [] OTHER -> Fail
+                       IF l.ok THEN POk(<<"Arr", l.t>>, l.i + 1) ELSE PFail
+    [] OTHER -> PFail
 
 \* one or more assignment-level elements separated by ","; no trailing comma;
 \* stops in front of the terminator (for call arguments also in front of "...")
 PList(s, i, acc, term) ==
   LET a == PAssign(s, i) IN
-  IF ~a.ok THEN Fail
+  IF ~a.ok THEN PFail
   ELSE LET acc2 == Append(acc, a.t) IN
        IF TK(s, a.i) = "," THEN PList(s, a.i + 1, acc2, term)
-       ELSE IF TK(s, a.i) = term \/ (term = ")" /\ TK(s, a.i) = "...") THEN Ok(acc2, a.i)
-       ELSE Fail
+       ELSE IF TK(s, a.i) = term \/ (term = ")" /\ TK(s, a.i) = "...") THEN POk(acc2, a.i)
+       ELSE PFail
 
 \* postfix operators must start on the line of their target
 PPostfix(s, i, t) ==
   LET k == TK(s, i) IN
-  IF TNL(s, i) THEN Ok(t, i)
+  IF TNL(s, i) THEN POk(t, i)
   ELSE IF k \in {".", "!."} THEN
          (IF TK(s, i + 1) \in NameKinds
-          THEN PPostfix(s, i + 2, <<"Sel", t, TV(s, i + 1), k = "!.">>) ELSE Fail)
+          THEN PPostfix(s, i + 2, <<"Sel", t, TV(s, i + 1), k = "!.">>) ELSE PFail)
   ELSE IF k = "(" THEN
-         LET l == IF TK(s, i + 1) \in {")", "..."} THEN Ok(<<>>, i + 1)
+         LET l == IF TK(s, i + 1) \in {")", "..."} THEN POk(<<>>, i + 1)
                   ELSE PList(s, i + 1, <<>>, ")") IN
-         IF ~l.ok THEN Fail
+         IF ~l.ok THEN PFail
          ELSE IF TK(s, l.i) = "..." THEN
-                (IF TK(s, l.i + 1) = ")" THEN PPostfix(s, l.i + 2, <<"Call", t, l.t, TRUE>>) ELSE Fail)
+                (IF TK(s, l.i + 1) = ")" THEN PPostfix(s, l.i + 2, <<"Call", t, l.t, TRUE>>) ELSE PFail)
               ELSE PPostfix(s, l.i + 1, <<"Call", t, l.t, FALSE>>)
-  ELSE Ok(t, i)
+  ELSE POk(t, i)
 
 PUnary(s, i) ==
   LET k == TK(s, i) IN
   IF k \in PrefixOps THEN
-     LET u == PUnary(s, i + 1) IN IF u.ok THEN Ok(<<"Pre", k, u.t>>, u.i) ELSE Fail
+     LET u == PUnary(s, i + 1) IN IF u.ok THEN POk(<<"Pre", k, u.t>>, u.i) ELSE PFail
   ELSE IF k = "typeof" THEN
-     LET u == PUnary(s, i + 1) IN IF u.ok THEN Ok(<<"Typeof", u.t>>, u.i) ELSE Fail
-  ELSE LET p == PPrimary(s, i) IN IF p.ok THEN PPostfix(s, p.i, p.t) ELSE Fail
+     LET u == PUnary(s, i + 1) IN IF u.ok THEN POk(<<"Typeof", u.t>>, u.i) ELSE PFail
+  ELSE LET p == PPrimary(s, i) IN IF p.ok THEN PPostfix(s, p.i, p.t) ELSE PFail
 
 \* precedence climbing: take an operator only when it binds tighter than the context
 \* (strictly: equal precedence goes to the caller, i.e. left associativity)
@@ -103,33 +103,33 @@ PBinRest(s, i, prec, left) ==
   LET k == TK(s, i) IN
   IF Prec(k) > prec THEN
      LET r == PBinary(s, i + 1, Prec(k)) IN
-     IF r.ok THEN PBinRest(s, r.i, prec, <<"Bin", k, left, r.t>>) ELSE Fail
-  ELSE Ok(left, i)
+     IF r.ok THEN PBinRest(s, r.i, prec, <<"Bin", k, left, r.t>>) ELSE PFail
+  ELSE POk(left, i)
 
 PBinary(s, i, prec) ==
-  LET u == PUnary(s, i) IN IF u.ok THEN PBinRest(s, u.i, prec, u.t) ELSE Fail
+  LET u == PUnary(s, i) IN IF u.ok THEN PBinRest(s, u.i, prec, u.t) ELSE PFail
 
 PAssign(s, i) ==
   LET b == PBinary(s, i, 0) IN
-  IF ~b.ok THEN Fail
+  IF ~b.ok THEN PFail
   ELSE IF TK(s, b.i) = "=" THEN
          LET r == PAssign(s, b.i + 1) IN
-         IF r.ok THEN Ok(<<"Bin", "=", b.t, r.t>>, r.i) ELSE Fail
+         IF r.ok THEN POk(<<"Bin", "=", b.t, r.t>>, r.i) ELSE PFail
   ELSE IF TK(s, b.i) = "?" THEN
          LET x == PAssign(s, b.i + 1) IN
          IF x.ok /\ TK(s, x.i) = ":" THEN
             LET y == PAssign(s, x.i + 1) IN
-            IF y.ok THEN Ok(<<"Cond", b.t, x.t, y.t>>, y.i) ELSE Fail
-         ELSE Fail
+            IF y.ok THEN POk(<<"Cond", b.t, x.t, y.t>>, y.i) ELSE PFail
+         ELSE PFail
   ELSE b
 
 PCommaRest(s, i, left) ==
   IF TK(s, i) = "," THEN
      LET r == PAssign(s, i + 1) IN
-     IF r.ok THEN PCommaRest(s, r.i, <<"Bin", ",", left, r.t>>) ELSE Fail
-  ELSE Ok(left, i)
+     IF r.ok THEN PCommaRest(s, r.i, <<"Bin", ",", left, r.t>>) ELSE PFail
+  ELSE POk(left, i)
 
-PExpr(s, i) == LET a == PAssign(s, i) IN IF a.ok THEN PCommaRest(s, a.i, a.t) ELSE Fail
+PExpr(s, i) == LET a == PAssign(s, i) IN IF a.ok THEN PCommaRest(s, a.i, a.t) ELSE PFail
 
 ParseTokens(s) ==
   LET e == PExpr(s, 1) IN
@@ -147,7 +147,7 @@ Level(t) == CASE t[1] = "Bin" /\ t[2] = "," -> 0
 
 RECURSIVE WF(_), WFList(_, _), Unparse(_), UnparseList(_, _)
 
-WFList(l, j) == j > Len(l) \/ (WF(l[j]) /\ Level(l[j]) >= 1 /\ WFList(l, j + 1))
+WFList(l, j) == IF j > Len(l) THEN TRUE ELSE (WF(l[j]) /\ Level(l[j]) >= 1 /\ WFList(l, j + 1))
 
 WF(t) ==
   CASE t[1] = "Lit" -> t[2] \in LitKinds
